@@ -9,7 +9,7 @@
      st <i>            scalars of cc.channel[i] (i in 0..8)
      raw <i> <p>       cc.channel[i].pg[p] without side effect (same format as fetch)
      tail <i> <p>      text[510..543] of cc.channel[i].pg[p]
-     glob              last[], curr_chan, xds
+     glob              last[], curr_chan (one value, or two when the tree has one per field), xds
      chsw              vbi_channel_switched() + an empty vbi_decode() that executes the reset
      layout            constants of the compiled code (cross-check of translate/gen_cc.py)
 */
@@ -138,9 +138,13 @@ int main(void)
 				printf("ok "); put_cells(&vbi->cc.channel[v].pg[w], CC_ROWS * CC_COLS, CC_ROWS * CC_COLS + CC_COLS); printf("\n");
 			} else printf("rej parse\n");
 		} else if (H_IS(0, "glob")) {
-			if (h_ntok == 1)
-				printf("ok last=%02x%02x curr=%d xds=%d\n", vbi->cc.last[0], vbi->cc.last[1], vbi->cc.curr_chan, vbi->cc.xds ? 1 : 0);
-			else printf("rej parse\n");
+			if (h_ntok == 1) {
+				/* `int curr_chan` (shared) or `int curr_chan[2]` (per field, repair of finding F44): either compiles */
+				const int *cur = (const int *) &vbi->cc.curr_chan;
+				printf("ok last=%02x%02x curr=%d", vbi->cc.last[0], vbi->cc.last[1], cur[0]);
+				if (sizeof vbi->cc.curr_chan == 2 * sizeof (int)) printf(",%d", cur[1]);
+				printf(" xds=%d\n", vbi->cc.xds ? 1 : 0);
+			} else printf("rej parse\n");
 		} else if (H_IS(0, "chsw")) {
 			if (h_ntok == 1) {
 				vbi_sliced s; memset(&s, 0, sizeof s);
